@@ -115,7 +115,8 @@ pub fn oracle_snapshot(out: &mut Out, res: &SnapResult, ign: &Ignores) {
     let (t2, _s2) = match &res.result {
         Ok(x) => x,
         Err(e) => {
-            out.oracle_fail(&format!("snapshot:{e}"), format!("snapshot failed ({e}) on disk={} tree={} states={} sparse={}",
+            let sig = if res.known_enotdir { "snapshot:error:tracked-path-below-ignored-dir-parent-not-a-directory".to_string() } else { format!("snapshot:{e}") };
+            out.oracle_fail(&sig, format!("snapshot failed ({e}) on disk={} tree={} states={} sparse={}",
                 show_disk(&pre.disk), show_tree(&pre.tree), show_set(&pre.states), show_seq(&pre.sparse)));
             return;
         }
@@ -151,7 +152,10 @@ pub fn oracle_snapshot(out: &mut Out, res: &SnapResult, ign: &Ignores) {
         }
     }
     for (q, v) in &pre.tree {
-        if !in_sparse(&pre.sparse, q) && t2.get(q) != Some(v) {
+        // side condition (notes/C23.md): a tree path outside the patterns that the user replaced by a
+        // directory holding in-pattern files cannot stay in the tree (a tree has no file/dir clash)
+        let became_dir = t2.keys().any(|k| is_strict_prefix(q, k));
+        if !in_sparse(&pre.sparse, q) && t2.get(q) != Some(v) && !became_dir {
             bad.get_or_insert(("snapshot:outside-sparse-changed", format!("path {} outside the sparse patterns changed; {}", show_p(q), ctx())));
         }
     }
